@@ -349,6 +349,25 @@ def opGrad : P String := do
     | _ => throw s!"grad:{name}"
   pure (match r with | some (d, g) => join (fb d :: g.map fb) | none => "err")
 
+/-- `heap <program> <mask>` → protected buffers written under the resolution encoded by `mask` -/
+def opHeap : P String := do
+  let name ← tok
+  let m ← pNat
+  let prog ← match name with
+    | "layout" => pure (Heap.layoutStage 0 6)
+    | "layout-pinned" => pure (Heap.layoutStagePinned 0 6)
+    | "fit" => pure Heap.fitProg
+    | "transform" => pure Heap.transformProg
+    | "inverse" => pure Heap.inverseProg
+    | "sub" => pure Heap.subProg
+    | "sub-pinned" => pure Heap.subProgPinned
+    | "addmul" => pure Heap.addMulProg
+    | "update" => pure Heap.updateProg
+    | _ => throw s!"heap:{name}"
+  let s := Heap.run (fun site => (m >>> site) % 2 == 1) prog (Heap.init Heap.nProt)
+  let w := (s.written.filter (fun b => 1 ≤ b && b ≤ Heap.nProt)).eraseDups
+  pure (join ("w" :: w.map toString))
+
 def dispatch (op : String) : P String :=
   match op with
   | "knn" => opKnn
@@ -360,6 +379,7 @@ def dispatch (op : String) : P String :=
   | "metric" => opMetric
   | "smetric" => opSMetric
   | "grad" => opGrad
+  | "heap" => opHeap
   | "tau" => opTau
   | "sgd" => opSgd
   | "eps" => opEps
